@@ -56,11 +56,15 @@ def _case(draw, tier):
     c = draw(query_case(_cfg(tier)))
     # optionally abandon an evaluation after k results before the compared evaluations (in BOTH configurations)
     c["pre_partial"] = draw(st.sampled_from([None, None, None, 1, 1, 2]))
+    c["toggle_mid_evaluation"] = chance(draw, 1, 4)
     return c
 
 
 def strategy(tier):
     return _case(tier)
+
+
+_END = object()
 
 
 class _HitCounter:
@@ -189,6 +193,35 @@ def check(case) -> Outcome:
         if bad:
             return fail("switch_" + bad[0], f"same query object, evaluation {i + 1} of (off, on, off, on) with caching "
                                             f"{'on' if caching else 'off'}: {bad[1]}", classes=classes, features=feats)
+    # ---- the configuration is switched WHILE a result iterator is open (on: one result; off: one result; on again: the
+    # rest), then the same query object is evaluated again
+    if case.get("toggle_mid_evaluation"):
+        classes.append("switched_while_an_iterator_is_open")
+        try:
+            built = build_query(case, objs)
+            it = built.q.evaluate()
+            mid = []
+            for step_ in range(2):
+                (enable_caching if step_ == 0 else disable_caching)()
+                r_ = next(it, _END)
+                if r_ is _END:
+                    break
+                mid.append(r_)
+            enable_caching()
+            mid.extend(it)
+            again = rows_of(built, list(built.q.evaluate()))
+            mid = rows_of(built, mid)
+        except Exception as e:
+            return fail("exception_switching", f"switched while an iterator was open: {type(e).__name__}: {e}", classes=classes,
+                        features=feats)
+        finally:
+            enable_caching()
+        for label, rows in (("the evaluation during which the configuration was switched", mid),
+                            ("the evaluation after it", again)):
+            bad = compare_sets(b1, rows, multiset)
+            if bad:
+                return fail("midswitch_" + bad[0], f"{label}: {bad[1]}", classes=classes,
+                            features=feats + ["switched_while_an_iterator_is_open"])
     hits = hc.hits
     nontrivial = hits > 0 and n_sat > 0
     if hits:
